@@ -49,7 +49,11 @@ def run(tier):
              ("Delay/Average/Derivative", lambda: discdrv.check_histories(data["hist"]), len(data["hist"])),
              ("Sampling", lambda: discdrv.check_sampling(data["samp"]), len(data["samp"])),
              ("DeadBandRT", lambda: discdrv.check_deadband_rt(data["rt"]), len(data["rt"])),
-             ("RateLimiter/AntiWindupRate", lambda: discdrv.check_ratelimiter(data["rl"], data["awr"]), len(data["rl"]) + len(data["awr"]))]
+             ("RateLimiter/AntiWindupRate", lambda: discdrv.check_ratelimiter(data["rl"], data["awr"]), len(data["rl"]) + len(data["awr"])),
+             ("iteration gating", lambda: discdrv.check_gate(data["gate"]), len(data["gate"])),
+             ("limit adjustment at initialisation", lambda: discdrv.check_adjust(data["adj"], data["awadj"]), 2 * len(data["adj"]) + len(data["awadj"])),
+             ("AntiWindup iteration lock", lambda: discdrv.check_aw_lock(data["awlock"]), len(data["awlock"])),
+             ("SortedLimiter", lambda: discdrv.check_sorted(data["sorted"] if not quick else data["sorted"][::3]), len(data["sorted"]) // (3 if quick else 1))]
     for name, fn, n in parts:
         try:
             bad = fn()
@@ -95,7 +99,7 @@ def run(tier):
                 "the bounds); simulations with active limiters; non-trivial = a history with a repeated or rewound stamp, a lattice point")
     rep.assume("ordered limits (lower < upper) are the precondition of the one-hot clause; lower = upper = input with inclusive comparison "
                "sets both flags (degenerate pair, documented in DESIGN.md)")
-    rep.assume("SortedLimiter, RateLimiter, AntiWindupRate, ShuntAdjust and time-mode Delay are exercised only through simulations")
+    rep.assume("ShuntAdjust and time-mode Delay are exercised only through simulations; SortedLimiter with relative violations (abs_violation = 0) is not covered")
     return rep.finish()
 
 
